@@ -7,7 +7,7 @@ CONSTANTS
   TermsOf <- Terms
   Matches <- Match
   IsWild <- Wild
-  MaxOps = 5
+  MaxOps = 4
   FixDelete = FALSE
   FixRegistry = FALSE
 INVARIANTS NoDeleteExact TypeOK
